@@ -160,6 +160,9 @@ def run(module, cfg, workers=16, timeout=3600, simulate=None, depth=None, seed=N
     e = dict(os.environ)
     if env:
         e.update(env)
+    # TLC's scratch directories (tlc-NNN under java.io.tmpdir) go where they are removed with the run
+    os.makedirs(metadir, exist_ok=True)
+    e["JAVA_TOOL_OPTIONS"] = (e.get("JAVA_TOOL_OPTIONS", "") + " -Djava.io.tmpdir=" + metadir).strip()
     try:
         p = subprocess.run(cmd, cwd=cwd, stdout=subprocess.PIPE, stderr=subprocess.STDOUT, timeout=timeout, env=e)
         out = p.stdout.decode("utf-8", "replace")
